@@ -178,13 +178,20 @@ Section StateKVProofs.
   Variable enc_ts : tslots -> bytes.
   Variable dec_ts : bytes -> option tslots.
 
-  (* the codec facts used (C11 round trip, C13 canonicity), as hypotheses of the section *)
-  Hypothesis comp_rt : forall i c, dec_comp i (enc_comp i c) = Some c.
-  Hypothesis comp_canon : forall i b c, dec_comp i b = Some c -> b = enc_comp i c.
-  Hypothesis info_rt : forall x, dec_info (enc_info x) = Some x.
-  Hypothesis info_canon : forall b x, dec_info b = Some x -> b = enc_info x.
-  Hypothesis ts_rt : forall t, dec_ts (enc_ts t) = Some t.
-  Hypothesis ts_canon : forall b t, dec_ts b = Some t -> b = enc_ts t.
+  (* which values the encoders are defined on (well-typed values; a partial encoder is made total by
+     any junk outside) *)
+  Variable comp_ok : N -> comp -> Prop.
+  Variable sinfo_ok : sinfo -> Prop.
+  Variable ts_ok : tslots -> Prop.
+
+  (* the codec facts used (C11 round trip on well-typed values, C13 canonicity: an accepted input is the
+     encoding of the well-typed value it decodes to), as hypotheses of the section *)
+  Hypothesis comp_rt : forall i c, comp_ok i c -> dec_comp i (enc_comp i c) = Some c.
+  Hypothesis comp_canon : forall i b c, dec_comp i b = Some c -> b = enc_comp i c /\ comp_ok i c.
+  Hypothesis info_rt : forall x, sinfo_ok x -> dec_info (enc_info x) = Some x.
+  Hypothesis info_canon : forall b x, dec_info b = Some x -> b = enc_info x /\ sinfo_ok x.
+  Hypothesis ts_rt : forall t, ts_ok t -> dec_ts (enc_ts t) = Some t.
+  Hypothesis ts_canon : forall b t, dec_ts b = Some t -> b = enc_ts t /\ ts_ok t.
 
   Notation account := (account sinfo tslots).
   Notation state := (state comp sinfo tslots).
@@ -292,7 +299,7 @@ Section StateKVProofs.
     destruct (fixed_index k) as [i|] eqn:Ef.
     - destruct (dec_comp i v) as [c|] eqn:Ed; [|discriminate]. inversion Hs; subst; clear Hs.
       apply fixed_index_some in Ef. destruct Ef as [-> Hi].
-      apply comp_canon in Ed. subst v.
+      apply comp_canon in Ed. destruct Ed as [-> _].
       unfold emit. cbn [ps_comp ps_delta].
       assert (Hnone : ps_comp ps i = None).
       { destruct (ps_comp ps i) as [c0|] eqn:E0; [|reflexivity]. exfalso. apply Hk.
@@ -304,7 +311,7 @@ Section StateKVProofs.
     - destruct (info_sid k) as [s|] eqn:Ei.
       + destruct (dec_info v) as [x|] eqn:Ed; [|discriminate]. inversion Hs; subst; clear Hs.
         apply info_sid_some in Ei. destruct Ei as [-> Hs].
-        apply info_canon in Ed. subst v.
+        apply info_canon in Ed. destruct Ed as [-> _].
         unfold emit. cbn [ps_comp ps_delta].
         rewrite (upd_acc_perm s (set_info x) (ps_delta ps) [info_kv s x]).
         * perm_mid.
@@ -369,7 +376,7 @@ Section StateKVProofs.
     - destruct (find_remove (key_svc_hash s (lk_input (h, len32 v))) un) as [[lv un1]|] eqn:Ef.
       + destruct (dec_ts lv) as [ts|] eqn:Ed; [|discriminate].
         intros Ha. rewrite (IH _ _ _ _ Ha).
-        apply ts_canon in Ed. subst lv. apply find_remove_perm in Ef. rewrite Ef.
+        apply ts_canon in Ed. destruct Ed as [-> _]. apply find_remove_perm in Ef. rewrite Ef.
         cbn [map]. unfold StateKV.lk_kv at 1. cbn [fst snd]. perm_mid.
       + apply IH.
   Qed.
@@ -698,9 +705,15 @@ Section StateKVProofs.
       intros ->. assert (bytes_eqb y y = true) by now apply bytes_eqb_eq. congruence.
   Qed.
 
+  (* the components, service informations and lookup values of the state are well-typed *)
+  Definition valid_state (st : state) : Prop :=
+    (forall i, In i idx16 -> comp_ok i (st_comp st i)) /\
+    (forall s a, In (s, a) (st_delta st) -> sinfo_ok (a_info a) /\ forall e, In e (a_lk a) -> ts_ok (snd e)).
+
   Section OneState.
     Variable st : state.
     Hypothesis Hwf : wf_state st.
+    Hypothesis Hval : valid_state st.
     Hypothesis Hnc : no_coinc st.
 
     Lemma wf_sid s a : In (s, a) (st_delta st) -> s < 2 ^ 32.
@@ -786,14 +799,14 @@ Section StateKVProofs.
       destruct (fixed_index k) as [i|] eqn:Ef.
       - apply fixed_index_some in Ef. destruct Ef as [-> Hi].
         apply in_serialize in Hin. destruct Hin as [(j & Hj & E & ->)|(s & a & Hsa & [E|He])].
-        + apply key_fixed_inj in E. subst j. rewrite comp_rt. eauto.
+        + apply key_fixed_inj in E. subst j. rewrite comp_rt by (apply Hval; assumption). eauto.
         + unfold StateKV.info_kv in E. injection E; intros; lia.
         + destruct (entry_unreserved s a _ v Hsa He) as [Hf _]. rewrite fixed_index_key_fixed in Hf by assumption.
           discriminate.
       - destruct (info_sid k) as [s0|] eqn:Ei.
         + apply in_serialize in Hin. destruct Hin as [(j & Hj & -> & ->)|(s & a & Hsa & [E|He])].
           * rewrite info_sid_key_fixed in Ei by (apply idx16_in in Hj; lia). discriminate.
-          * inversion E; subst. rewrite info_rt. eauto.
+          * inversion E; subst. rewrite info_rt by (apply (proj2 Hval s a Hsa)). eauto.
           * destruct (entry_unreserved s a _ v Hsa He) as [_ Hi]. congruence.
         + destruct (bytes_eqb _ _); eauto.
     Qed.
@@ -812,7 +825,10 @@ Section StateKVProofs.
       forall e, In e lks -> key_unres (key_svc_hash s' (lk_input (fst e))).
 
     Definition acc_ok (s' : N) (a' : pacc) : Prop :=
-      In (key_svc_idx 255 s') (map fst (serialize st)) /\ s' < 2 ^ 32 /\ pre_ok s' (p_pre a') /\ lks_ok s' (p_lk a').
+      In (key_svc_idx 255 s') (map fst (serialize st)) /\ s' < 2 ^ 32 /\ pre_ok s' (p_pre a') /\ lks_ok s' (p_lk a') /\
+      (forall x, p_info a' = Some x -> sinfo_ok x).
+
+    Definition comps_ok (ps : pstate) : Prop := forall i c, ps_comp ps i = Some c -> comp_ok i c.
 
     Definition delta_ok (d : list (N * pacc)) : Prop := forall s' a', In (s', a') d -> acc_ok s' a'.
 
@@ -829,22 +845,30 @@ Section StateKVProofs.
 
     Lemma step_ok k v ps un ps' un' :
       In (k, v) (serialize st) -> step k v ps un = Some (ps', un') ->
-      un_ok un -> delta_ok (ps_delta ps) -> un_ok un' /\ delta_ok (ps_delta ps').
+      un_ok un -> delta_ok (ps_delta ps) -> comps_ok ps -> un_ok un' /\ delta_ok (ps_delta ps') /\ comps_ok ps'.
     Proof.
-      intros Hin Hs Hu Hd. unfold StateKV.step in Hs.
+      intros Hin Hs Hu Hd Hc. unfold StateKV.step in Hs.
       destruct (fixed_index k) as [i|] eqn:Ef.
-      - destruct (dec_comp i v); [|discriminate]. inversion Hs; subst. auto.
+      - destruct (dec_comp i v) as [c|] eqn:Edc; [|discriminate]. inversion Hs; subst. split; [assumption|split; [assumption|]].
+        intros j c' Hj. cbn [ps_comp] in Hj. destruct (j =? i) eqn:Eji.
+        + apply N.eqb_eq in Eji. subst j. inversion Hj; subst. apply (comp_canon i v c' Edc).
+        + now apply Hc.
       - destruct (info_sid k) as [s0|] eqn:Ei.
-        + destruct (dec_info v) as [x|]; [|discriminate]. inversion Hs; subst; clear Hs. split; [assumption|].
+        + destruct (dec_info v) as [x|] eqn:Edi; [|discriminate]. inversion Hs; subst; clear Hs.
+          split; [assumption|]. split; [|exact Hc].
+          pose proof (proj2 (info_canon v x Edi)) as Hxok.
           cbn [ps_delta]. apply info_sid_some in Ei. destruct Ei as [-> Hs0].
           assert (Hk : In (key_svc_idx 255 s0) (map fst (serialize st))).
           { apply in_map_iff. exists (key_svc_idx 255 s0, v). auto. }
           apply upd_acc_ok; [assumption| |].
-          * intros a Ha. destruct (Hd s0 a Ha) as (_ & _ & Hp & Hl). split; [assumption|split; [assumption|split; [exact Hp|exact Hl]]].
-          * split; [assumption|split; [assumption|split]]; [intros h w []|intros e []].
+          * intros a Ha. destruct (Hd s0 a Ha) as (_ & _ & Hp & Hl & _).
+            split; [assumption|split; [assumption|split; [exact Hp|split; [exact Hl|]]]].
+            cbn [set_info p_info]. intros x0 [= <-]. exact Hxok.
+          * split; [assumption|split; [assumption|split; [intros h w []|split; [intros e []|]]]].
+            cbn [set_info p_info]. intros x0 [= <-]. exact Hxok.
         + destruct (bytes_eqb k (key_svc_hash (sid_type3 k) (pre_input (H v)))) eqn:Ep;
             inversion Hs; subst; clear Hs.
-          * split; [assumption|]. cbn [ps_delta].
+          * split; [assumption|]. split; [|exact Hc]. cbn [ps_delta].
             destruct (classify_unreserved k v Hin Ef Ei) as (s & a & Hsa & He).
             pose proof (entry_sid s a k v Hsa He) as Es. rewrite Es.
             assert (Hk : In (key_svc_idx 255 s) (map fst (serialize st))).
@@ -853,24 +877,27 @@ Section StateKVProofs.
             { intros pres Hp h w [[= <- <-]|Hw]; [|now apply Hp]. split; [reflexivity|]. exists k.
               apply bytes_eqb_eq in Ep. rewrite Es in Ep. auto 6. }
             apply upd_acc_ok; [assumption| |].
-            -- intros a0 Ha0. destruct (Hd s a0 Ha0) as (_ & Hlt & Hp & Hl). split; [assumption|split; [assumption|split]].
+            -- intros a0 Ha0. destruct (Hd s a0 Ha0) as (_ & Hlt & Hp & Hl & Hio).
+               split; [assumption|split; [assumption|split; [|split]]].
                ++ cbn [add_pre p_pre]. now apply Hnew.
                ++ exact Hl.
-            -- split; [assumption|split; [eapply wf_sid; eassumption|split]].
+               ++ exact Hio.
+            -- split; [assumption|split; [eapply wf_sid; eassumption|split; [|split]]].
                ++ cbn [add_pre p_pre StateKV.empty_pacc]. apply Hnew. intros h w [].
                ++ intros e [].
-          * split; [|assumption]. intros k' v' [[= <- <-]|Hin']; [auto|now apply Hu].
+               ++ cbn. intros x0 Hx0. discriminate.
+          * split; [|split; assumption]. intros k' v' [[= <- <-]|Hin']; [auto|now apply Hu].
     Qed.
 
     Lemma phase1_total kvs : forall ps un,
-      (forall kvp, In kvp kvs -> In kvp (serialize st)) -> un_ok un -> delta_ok (ps_delta ps) ->
-      exists ps' un', phase1 kvs ps un = Some (ps', un') /\ un_ok un' /\ delta_ok (ps_delta ps').
+      (forall kvp, In kvp kvs -> In kvp (serialize st)) -> un_ok un -> delta_ok (ps_delta ps) -> comps_ok ps ->
+      exists ps' un', phase1 kvs ps un = Some (ps', un') /\ un_ok un' /\ delta_ok (ps_delta ps') /\ comps_ok ps'.
     Proof.
-      induction kvs as [|[k v] t IH]; intros ps un Hall Hu Hd; cbn [StateKV.phase1].
-      - eauto.
+      induction kvs as [|[k v] t IH]; intros ps un Hall Hu Hd Hc; cbn [StateKV.phase1].
+      - eauto 6.
       - assert (Hin : In (k, v) (serialize st)) by (apply Hall; now left).
         destruct (step_total k v ps un Hin) as (ps1 & un1 & Es). rewrite Es.
-        destruct (step_ok k v ps un ps1 un1 Hin Es Hu Hd) as [Hu1 Hd1].
+        destruct (step_ok k v ps un ps1 un1 Hin Es Hu Hd Hc) as (Hu1 & Hd1 & Hc1).
         apply IH; auto. intros kvp Hk. apply Hall. now right.
     Qed.
 
@@ -911,7 +938,8 @@ Section StateKVProofs.
       destruct Ek as [<- EH].
       assert (a2 = a) by (eapply same_acc; eassumption). subst a2.
       destruct He2 as (_ & _ & _ & Hv & _).
-      destruct Hkind as [[e [_ ->]]|Hkind]; [rewrite ts_rt; eauto|]. exfalso.
+      destruct Hkind as [[e [He ->]]|Hkind];
+        [rewrite ts_rt by (apply (proj2 (proj2 Hval _ a Hsa) e He)); eauto|]. exfalso.
       set (y := lk_input (H v, len32 v)) in *.
       assert (Hy : In y (inputs a ++ probes a)).
       { rewrite in_app_iff. right. unfold StateKV.probes. apply in_map_iff. exists v. auto. }
@@ -947,19 +975,19 @@ Section StateKVProofs.
     Proof.
       induction d as [|[s' a'] t IH]; intros un Hd Hu; cbn [StateKV.attach_all].
       - exists [], un. split; [reflexivity|split; [assumption|]]. intros s a [].
-      - destruct (Hd s' a' (or_introl eq_refl)) as (Hk & Hlt & Hp & Hl).
+      - destruct (Hd s' a' (or_introl eq_refl)) as (Hk & Hlt & Hp & Hl & Hio).
         destruct (attach_pre_total s' (p_pre a') (p_lk a') un Hlt Hp Hu Hl) as (lks & un1 & -> & Hu1 & Hl1).
         destruct (IH un1) as (d' & un2 & -> & Hu2 & Hd2); [intros s1 a1 H1; apply Hd; now right|assumption|].
         exists ((s', set_lk lks a') :: d'), un2. split; [reflexivity|split; [assumption|]].
         intros s1 a1 [[= <- <-]|H1]; [|now apply Hd2].
-        split; [assumption|split; [assumption|split; [exact Hp|exact Hl1]]].
+        split; [assumption|split; [assumption|split; [exact Hp|split; [exact Hl1|exact Hio]]]].
     Qed.
 
     (* the entries of a finalized account have unreserved keys *)
     Lemma finalize_entry_unres s' pa k v :
       acc_ok s' pa -> is_entry s' (finalize_acc pa) k v -> key_unres k.
     Proof.
-      intros (_ & _ & Hp & Hl) (x & Hx & -> & _).
+      intros (_ & _ & Hp & Hl & _) (x & Hx & -> & _).
       unfold StateKV.inputs, StateKV.finalize_acc in Hx. cbn [a_storage a_pre a_lk map app] in Hx.
       rewrite in_app_iff, !in_map_iff in Hx. destruct Hx as [[[h w] [<- He]]|[e [<- He]]].
       - destruct (Hp h w He) as (_ & k' & _ & _ & Hf & Hi & ->). cbn [fst]. split; assumption.
@@ -981,8 +1009,8 @@ Section StateKVProofs.
     Proof.
       intros P.
       assert (Hall : forall kvp, In kvp kvs -> In kvp (serialize st)) by (intros kvp; apply Permutation_in; assumption).
-      destruct (phase1_total kvs empty_pstate [] Hall) as (ps & un & E1 & Hu & Hd);
-        [intros k v []|intros s a []|].
+      destruct (phase1_total kvs empty_pstate [] Hall) as (ps & un & E1 & Hu & Hd & Hco);
+        [intros k v []|intros s a []|intros i c; discriminate|].
       destruct (attach_all_total (ps_delta ps) un Hd Hu) as (d & raw & E2 & Hu2 & Hd2).
       set (st' := finalize {| ps_comp := ps_comp ps; ps_delta := d |}).
       assert (Hp : parse kvs = Some (st', raw)).
@@ -1011,7 +1039,14 @@ Section StateKVProofs.
         assert (H2 : In (key_fixed i, enc_comp i (st_comp st i)) (serialize st)).
         { unfold StateKV.serialize. rewrite in_app_iff. left. apply in_map_iff. exists i. auto. }
         pose proof (NoDup_map_fst_fun _ _ _ _ Hnd H1 H2) as E.
-        pose proof (comp_rt i (st_comp st' i)) as R1. rewrite E, comp_rt in R1. congruence.
+        assert (Hok' : comp_ok i (st_comp st' i)).
+        { unfold st'. cbn [StateKV.finalize st_comp ps_comp].
+          pose proof (phase1_comp kvs i _ _ _ _ E1 (proj1 (idx16_in i) Hi)) as Hset.
+          destruct (ps_comp ps i) as [c|] eqn:Ec; [now apply (Hco i c)|].
+          exfalso. apply Hset; [|reflexivity]. right.
+          apply (Permutation_in _ (Permutation_map fst (Permutation_sym P))).
+          rewrite serialize_keys, in_app_iff. left. now apply in_map. }
+        pose proof (comp_rt i (st_comp st' i) Hok') as R1. rewrite E, comp_rt in R1 by (apply Hval; assumption). congruence.
       - intros s a Hsa.
         assert (H1 : In (info_kv s (a_info a)) (serialize st' ++ raw)).
         { apply (Permutation_in _ (Permutation_sym P')). apply (Permutation_in _ (Permutation_sym P)).
@@ -1025,7 +1060,19 @@ Section StateKVProofs.
             pose proof (f_equal fst E) as Ek. pose proof (f_equal snd E) as Ev. cbn [fst snd StateKV.info_kv] in Ek, Ev.
             apply key_svc_idx_inj in Ek; try assumption. subst s'.
             exists (finalize_acc pa). split; [assumption|].
-            pose proof (info_rt (a_info (finalize_acc pa))) as R1. rewrite <- Ev, info_rt in R1. congruence.
+            assert (Hok' : sinfo_ok (a_info (finalize_acc pa))).
+            { destruct (attach_all_perm _ _ _ _ E2) as [_ F2].
+              destruct (same_shape_info _ _ _ _ F2 Hpa) as [a0 [Ha0 Ei0]].
+              destruct (Hd2 s pa Hpa) as (Hk & _ & _ & _ & Hio).
+              assert (Hk' : In (key_svc_idx 255 s) (map fst kvs))
+                by (apply (Permutation_in _ (Permutation_map fst (Permutation_sym P))); exact Hk).
+              destruct (phase1_info kvs s _ _ _ _ E1 Hs (or_intror Hk')) as [a1 [Hl1 Hi1]].
+              rewrite (lookup_acc_of_in s a0 _ (phase1_nodup kvs _ _ _ _ E1 (NoDup_nil _)) Ha0) in Hl1.
+              inversion Hl1; subst a1. rewrite Ei0 in Hi1.
+              unfold StateKV.finalize_acc. cbn [a_info].
+              destruct (p_info pa) as [x|] eqn:Ex; [now apply Hio|contradiction]. }
+            pose proof (info_rt (a_info (finalize_acc pa)) Hok') as R1.
+            rewrite <- Ev, info_rt in R1 by (apply (proj2 Hval s a Hsa)). congruence.
           * destruct (Hdelta s' a' Hsa') as (pa & Hpa & ->).
             destruct (finalize_entry_unres s' pa _ _ (Hd2 s' pa Hpa) He) as [_ Hi].
             unfold StateKV.info_kv in Hi. cbn [fst] in Hi. rewrite info_sid_key in Hi by assumption. discriminate.
@@ -1045,20 +1092,20 @@ Section StateKVProofs.
 
   (* the property: export, import in any order, export again *)
   Theorem export_import_recovers st kvs :
-    wf_state st -> Permutation kvs (serialize st) ->
+    wf_state st -> valid_state st -> Permutation kvs (serialize st) ->
     (exists st' raw, parse kvs = Some (st', raw) /\ recovered st kvs st' raw) \/ coincidence st.
   Proof.
-    intros Hwf P. destruct (coll_free st) eqn:E.
-    - left. apply (roundtrip_no_coincidence st Hwf (coll_free_true st E) kvs P).
+    intros Hwf Hval P. destruct (coll_free st) eqn:E.
+    - left. apply (roundtrip_no_coincidence st Hwf Hval (coll_free_true st E) kvs P).
     - right. now apply coll_free_false.
   Qed.
 
   Theorem export_import_roundtrip st kvs :
-    wf_state st -> Permutation kvs (serialize st) ->
+    wf_state st -> valid_state st -> Permutation kvs (serialize st) ->
     (exists st' raw, parse kvs = Some (st', raw) /\ Permutation (serialize st' ++ raw) kvs)
     \/ coincidence st.
   Proof.
-    intros Hwf P. destruct (export_import_recovers st kvs Hwf P) as [(st' & raw & Hp & Hr & _)|Hc]; [left|now right].
+    intros Hwf Hval P. destruct (export_import_recovers st kvs Hwf Hval P) as [(st' & raw & Hp & Hr & _)|Hc]; [left|now right].
     eauto.
   Qed.
 
@@ -1073,25 +1120,25 @@ Section StateKVProofs.
   (* hence the same state root, for every root function that does not depend on the order (C15) *)
   Theorem export_import_same_root (R : Type) (root : list kv -> R) st kvs :
     (forall l l', Permutation l l' -> root l = root l') ->
-    wf_state st -> Permutation kvs (serialize st) ->
+    wf_state st -> valid_state st -> Permutation kvs (serialize st) ->
     (exists st' raw, parse kvs = Some (st', raw) /\ root (serialize st' ++ raw) = root (serialize st))
     \/ coincidence st.
   Proof.
-    intros Hroot Hwf P. destruct (export_import_roundtrip st kvs Hwf P) as [(st' & raw & Hp & P')|Hc]; [left|now right].
+    intros Hroot Hwf Hval P. destruct (export_import_roundtrip st kvs Hwf Hval P) as [(st' & raw & Hp & P')|Hc]; [left|now right].
     exists st', raw. split; [assumption|]. apply Hroot. now rewrite P'.
   Qed.
 
   (* the result of the import does not depend on the order of the key-values, up to permutation of
      what it stands for *)
   Theorem import_order_independent st kvs kvs' :
-    wf_state st -> Permutation kvs (serialize st) -> Permutation kvs' kvs ->
+    wf_state st -> valid_state st -> Permutation kvs (serialize st) -> Permutation kvs' kvs ->
     (exists st1 raw1 st2 raw2, parse kvs = Some (st1, raw1) /\ parse kvs' = Some (st2, raw2) /\
        Permutation (serialize st1 ++ raw1) (serialize st2 ++ raw2))
     \/ coincidence st.
   Proof.
-    intros Hwf P P'.
-    destruct (export_import_roundtrip st kvs Hwf P) as [(st1 & raw1 & Hp1 & P1)|Hc]; [|now right].
-    destruct (export_import_roundtrip st kvs' Hwf (perm_trans P' P)) as [(st2 & raw2 & Hp2 & P2)|Hc]; [|now right].
+    intros Hwf Hval P P'.
+    destruct (export_import_roundtrip st kvs Hwf Hval P) as [(st1 & raw1 & Hp1 & P1)|Hc]; [|now right].
+    destruct (export_import_roundtrip st kvs' Hwf Hval (perm_trans P' P)) as [(st2 & raw2 & Hp2 & P2)|Hc]; [|now right].
     left. exists st1, raw1, st2, raw2. repeat split; try assumption.
     rewrite P1, P2. now symmetry.
   Qed.
